@@ -147,7 +147,7 @@ def _sum_range(rng: ast.Call) -> ast.AST:
     if not core.match_template(step, ast.Constant(value=1)):
         return rng
 
-    if core.match_template(end, ast.Constant(value=0)):
+    if core.match_template(start, ast.Constant(value=0)):
         return _sum_int_squares_to(end)
 
     return ast.BinOp(left=_sum_int_squares_to(end), op=ast.Sub(), right=_sum_int_squares_to(start))
